@@ -1,26 +1,49 @@
 package main
 
 import (
+	"bytes"
 	"context"
 	"encoding/json"
+	"errors"
 	"fmt"
 	"io"
+	"math"
+	"net/http"
+	"net/url"
 	"os"
+	"os/exec"
 	"path/filepath"
 	"sort"
+	"strconv"
 	"strings"
+	"sync"
+	"sync/atomic"
 	"time"
 
+	"flamingo.me/flamingo/v3/framework/flamingo"
+	"flamingo.me/flamingo/v3/framework/web"
+	"flamingo.me/pugtemplate"
 	"flamingo.me/pugtemplate/pugjs"
+	"flamingo.me/pugtemplate/templatefunctions"
 )
 
 // C17: RenderPartials vs Render of each partial alone.
 //
-// Two engines over the same template tree:
+// Engines over the same template tree, each in an operating-system process of its own (this binary
+// re-executed with the runner C17one), so that nothing - no package variable, cache or pool of the
+// code under test - is shared between two cases, between the reference and the engine under test,
+// or between two reference renders:
 //   - the engine UNDER TEST receives the history `prep` (possibly empty: a fresh engine on which
 //     neither LoadTemplates nor Render has run) and then the RenderPartials call that is judged;
-//   - the REFERENCE engine is a separate, preloaded, non-debug engine; every name of `universe` is
-//     rendered on it alone by Engine.Render.
+//   - for every distinct requested partial name that is a file of the tree, a REFERENCE process
+//     builds a preloaded engine and renders that one name alone by Engine.Render: "rendered on its
+//     own" means in a process that has done nothing else.  (Requested names that are no file of
+//     the tree are rendered, for the record only, on a separate engine inside the process of the
+//     engine under test after the judged call; the oracle never consults them.)
+//
+// All engines carry the template functions the module registers that need no router / injector
+// (debug, JSON, Math, Object, stripTags, truncate, capitalize, trim, escapeHtml, startsWith,
+// parseInt, parseFloat) - the real implementations from /repo/templatefunctions.
 // The template name of the request and the requested partial names are arbitrary strings (also ones
 // written with path syntax: trailing slashes, "./", "..", doubled slashes, other case); they are handed
 // to the engine verbatim, the file tree itself only has clean relative paths.
@@ -39,20 +62,31 @@ type c17Case struct {
 }
 
 // c17Op is one earlier call on the engine under test.
-//   load              LoadTemplates("")
-//   render  name      Engine.Render(name) (full template name), fresh data
-//   partials names    Engine.RenderPartials(t or the case's template, names), fresh data, result drained
+//
+//	load    [filter]  LoadTemplates(filter) (default ""): a full load, or a filtered reload of one template /
+//	                  of everything below a prefix
+//	debugctl tpl      GET /_pugtpl/debug?tpl=<tpl> answered by the module's DebugController (which reloads tpl)
+//	render  name      Engine.Render(name) (full template name), fresh data
+//	partials names    Engine.RenderPartials(t or the case's template, names), fresh data, result drained
+//
 // An earlier call may come with its own data (another request), else it gets a copy of the case's data.
 type c17Op struct {
-	Op    string   `json:"op"`
-	Name  string   `json:"name,omitempty"`  // hex
-	Names []string `json:"names,omitempty"` // hex
-	T     *string  `json:"t,omitempty"`     // hex: template name of an earlier RenderPartials (default: the case's)
+	Op     string   `json:"op"`
+	Name   string   `json:"name,omitempty"`   // hex
+	Names  []string `json:"names,omitempty"`  // hex
+	T      *string  `json:"t,omitempty"`      // hex: template name of an earlier RenderPartials (default: the case's)
+	Filter string   `json:"filter,omitempty"` // hex: filter of a load / tpl of a debugctl
 	// Data, when present, is the data of this earlier call (another request's data); otherwise the case's data
 	Data json.RawMessage `json:"data,omitempty"`
 }
 
 // c17Val: typed data.  t = nil | bool | int | str | arr | map | strs ([]string) | strmap (map[string]string)
+//
+//	float   v = "nan" | "inf" | "-inf" | decimal text           (float64; the first three cannot be JSON-encoded)
+//	getter  v = {first,last,orders,visits}                      (*c17Customer: struct with zero-argument methods)
+//	unenc   v = text                                            (c17Unencodable: its MarshalJSON reports an error)
+//	nilptr                                                      (a nil *c17Customer)
+//	fn                                                          (a Go func with a parameter)
 type c17Val struct {
 	T string          `json:"t"`
 	V json.RawMessage `json:"v"`
@@ -78,6 +112,37 @@ func c17Build(raw json.RawMessage) (interface{}, error) {
 		var s string
 		err := json.Unmarshal(tv.V, &s)
 		return unhx(s), err
+	case "float":
+		var s string
+		if err := json.Unmarshal(tv.V, &s); err != nil {
+			return nil, err
+		}
+		switch s {
+		case "nan":
+			return math.NaN(), nil
+		case "inf":
+			return math.Inf(1), nil
+		case "-inf":
+			return math.Inf(-1), nil
+		}
+		return strconv.ParseFloat(s, 64)
+	case "getter":
+		var g struct {
+			First, Last    string
+			Orders, Visits float64
+		}
+		if err := json.Unmarshal(tv.V, &g); err != nil {
+			return nil, err
+		}
+		return &c17Customer{Firstname: unhx(g.First), Lastname: unhx(g.Last), Orders: g.Orders, Visits: g.Visits}, nil
+	case "unenc":
+		var s string
+		err := json.Unmarshal(tv.V, &s)
+		return c17Unencodable{Why: s}, err
+	case "nilptr":
+		return (*c17Customer)(nil), nil
+	case "fn":
+		return func(a string) string { return "fn(" + a + ")" }, nil
 	case "strs":
 		var l []string
 		if err := json.Unmarshal(tv.V, &l); err != nil {
@@ -134,14 +199,47 @@ func c17Build(raw json.RawMessage) (interface{}, error) {
 	return nil, fmt.Errorf("bad data tag %q", tv.T)
 }
 
+// c17Customer: view data with zero-argument methods ("getters"), which pugjs binds as members
+type c17Customer struct {
+	Firstname, Lastname string
+	Orders, Visits      float64
+}
+
+func (c *c17Customer) DisplayName() string { return c.Firstname + " " + c.Lastname }
+
+// Conversion is orders per visit: NaN for a customer without visits
+func (c *c17Customer) Conversion() float64 { return c.Orders / c.Visits }
+
+// c17Unencodable cannot be JSON-encoded
+type c17Unencodable struct{ Why string }
+
+func (u c17Unencodable) MarshalJSON() ([]byte, error) {
+	return nil, errors.New("cannot encode: " + u.Why)
+}
+
+// c17Funcs: the module's template functions that work without router / injector (see module.go)
+func c17Funcs() map[string]flamingo.TemplateFunc {
+	return map[string]flamingo.TemplateFunc{
+		"debug":      templatefunctions.DebugFunc{},
+		"startsWith": &templatefunctions.StartsWithFunc{},
+		"truncate":   &templatefunctions.TruncateFunc{},
+		"capitalize": &templatefunctions.CapitalizeFunc{},
+		"trim":       &templatefunctions.TrimFunc{},
+		"escapeHtml": &templatefunctions.EscapeHTMLFunc{},
+		"parseFloat": &templatefunctions.ParseFloat{},
+	}
+}
+
 type c17Entry struct {
 	Key string `json:"key"` // hex
 	Out string `json:"out"` // hex
 }
 
 type c17Obs struct {
-	Tree    []string      `json:"tree"`    // hex: every file <name>.ast.json found below template/page, as <name>
-	Alone   []c17AloneObs `json:"alone"`   // reference engine
+	Tree    []string      `json:"tree"`  // hex: every file <name>.ast.json found below template/page, as <name>
+	Alone   []c17AloneObs `json:"alone"` // every distinct requested name rendered alone (files of the tree: one process each)
+	Procs   int           `json:"procs"` // operating-system processes used for the case
+	Msg     string        `json:"msg,omitempty"`
 	Prep    []string      `json:"prep"`    // outcome class of every prep operation (diagnostic)
 	Class   string        `json:"class"`   // ok | error | exec_panic
 	Stalled bool          `json:"stalled"` // some call on the engine under test was still waiting when its deadline expired
@@ -160,7 +258,24 @@ const (
 	c17DeadlineAfterStall = 300 * time.Millisecond
 )
 
-var c17RunStalled bool
+// c17RunStalled: some call of this harness run was still waiting when its deadline expired
+var c17RunStalled atomic.Bool
+
+// c17Job is what a child process (runner C17one) is asked to do for one case
+type c17Job struct {
+	Dir   string  `json:"dir"` // where the parent wrote the template tree
+	Case  c17Case `json:"case"`
+	Mode  string  `json:"mode"`  // "test": history + judged call | "ref": render Name alone
+	Name  string  `json:"name"`  // hex: partial name (mode ref)
+	Short bool    `json:"short"` // an earlier call of the run has stalled: short deadlines
+}
+
+type c17JobOut struct {
+	Obs c17Obs       `json:"obs"` // mode test: Prep, Class, Stalled, NilMap, Entries, Alone (names that are no files)
+	Res renderResult `json:"res"` // mode ref
+}
+
+const c17Workers = 6
 
 func init() {
 	runners["C17"] = func(in json.RawMessage) (interface{}, error) {
@@ -168,16 +283,71 @@ func init() {
 		if err := json.Unmarshal(in, &cases); err != nil {
 			return nil, err
 		}
+		self, err := os.Executable()
+		if err != nil {
+			return nil, err
+		}
 		out := make([]c17Obs, len(cases))
-		for i, c := range cases {
-			o, err := runC17(c)
+		errs := make([]error, len(cases))
+		var wg sync.WaitGroup
+		next := int64(-1)
+		for w := 0; w < c17Workers; w++ {
+			wg.Add(1)
+			go func() {
+				defer wg.Done()
+				for {
+					i := int(atomic.AddInt64(&next, 1))
+					if i >= len(cases) {
+						return
+					}
+					out[i], errs[i] = runC17(self, cases[i])
+				}
+			}()
+		}
+		wg.Wait()
+		for i, err := range errs {
 			if err != nil {
 				return nil, fmt.Errorf("case %d: %w", i, err)
 			}
-			out[i] = o
 		}
 		return out, nil
 	}
+	runners["C17one"] = func(in json.RawMessage) (interface{}, error) {
+		var job c17Job
+		if err := json.Unmarshal(in, &job); err != nil {
+			return nil, err
+		}
+		return c17Child(job)
+	}
+}
+
+// c17Spawn runs one job in a process of its own.  died = the Go runtime killed the process
+// (nothing a recover() can catch).
+func c17Spawn(self string, job c17Job) (out c17JobOut, died bool, msg string, err error) {
+	in, err := json.Marshal(job)
+	if err != nil {
+		return out, false, "", err
+	}
+	ctx, cancel := context.WithTimeout(context.Background(), 3*time.Minute)
+	defer cancel()
+	cmd := exec.CommandContext(ctx, self, "C17one")
+	cmd.Stdin = bytes.NewReader(in)
+	cmd.Env = append(os.Environ(), "GOMAXPROCS=2")
+	var stderr bytes.Buffer
+	cmd.Stderr = &stderr
+	res, err := cmd.Output()
+	if err != nil {
+		msg = stderr.String()
+		if len(msg) > 400 {
+			msg = msg[:400]
+		}
+		if _, ok := err.(*exec.ExitError); ok && !strings.HasPrefix(msg, "harness error:") && !strings.HasPrefix(msg, "bad input:") {
+			return out, true, msg, nil
+		}
+		return out, false, msg, fmt.Errorf("child process: %v: %s", err, msg)
+	}
+	err = json.Unmarshal(res, &out)
+	return out, false, "", err
 }
 
 // c17Partials calls RenderPartials, recovers panics and drains the readers (sorted by key).
@@ -215,7 +385,9 @@ func unhxAll(l []string) []string {
 	return res
 }
 
-func runC17(c c17Case) (obs c17Obs, err error) {
+// runC17 (parent): writes the tree, then one process for the engine under test and one per distinct
+// requested name that is a file of the tree.
+func runC17(self string, c c17Case) (obs c17Obs, err error) {
 	dir, err := os.MkdirTemp("", "pv17")
 	if err != nil {
 		return obs, err
@@ -231,14 +403,17 @@ func runC17(c c17Case) (obs c17Obs, err error) {
 	os.MkdirAll(dir+"/template/page", 0o755)
 	// what is really on disk (the spec side decides existence of a partial by membership in this set)
 	root := filepath.Join(dir, "template", "page")
-	obs.Tree = []string{}
+	tree := []string{}
+	onDisk := map[string]bool{}
 	if err := filepath.Walk(root, func(p string, info os.FileInfo, err error) error {
 		if err != nil {
 			return err
 		}
 		if !info.IsDir() && strings.HasSuffix(p, ".ast.json") {
 			rel := filepath.ToSlash(strings.TrimPrefix(p, root+string(filepath.Separator)))
-			obs.Tree = append(obs.Tree, hx(strings.TrimSuffix(rel, ".ast.json")))
+			name := strings.TrimSuffix(rel, ".ast.json")
+			tree = append(tree, hx(name))
+			onDisk[name] = true
 		}
 		return nil
 	}); err != nil {
@@ -247,6 +422,88 @@ func runC17(c c17Case) (obs c17Obs, err error) {
 	if _, err := c17Build(c.Data); err != nil {
 		return obs, err
 	}
+	for _, op := range c.Prep {
+		if len(op.Data) > 0 {
+			if _, err := c17Build(op.Data); err != nil {
+				return obs, err
+			}
+		}
+		switch op.Op {
+		case "load", "debugctl", "render", "partials":
+		default:
+			return obs, fmt.Errorf("bad prep op %q", op.Op)
+		}
+	}
+	tname := unhx(c.Template)
+
+	// the engine under test
+	out, died, msg, err := c17Spawn(self, c17Job{Dir: dir, Case: c, Mode: "test", Short: c17RunStalled.Load()})
+	if err != nil {
+		return obs, err
+	}
+	obs = out.Obs
+	if died {
+		obs = c17Obs{Class: "crash", NilMap: true, Prep: []string{}, Msg: msg}
+	}
+	if obs.Stalled {
+		c17RunStalled.Store(true)
+	}
+	obs.Tree = tree
+	obs.Procs = 1
+	rest := map[string]renderResult{}
+	for _, a := range obs.Alone {
+		rest[a.Name] = a.Res
+	}
+	obs.Alone = []c17AloneObs{}
+
+	// the reference: every distinct requested name alone
+	seen := map[string]bool{}
+	for _, p := range c.Partials {
+		if seen[p] {
+			continue
+		}
+		seen[p] = true
+		if !onDisk[tname+".partial/"+unhx(p)] {
+			r, ok := rest[p]
+			if !ok {
+				r = renderResult{Class: "crash"}
+			}
+			obs.Alone = append(obs.Alone, c17AloneObs{Name: p, Res: r})
+			continue
+		}
+		out, died, _, err := c17Spawn(self, c17Job{Dir: dir, Case: c, Mode: "ref", Name: p})
+		if err != nil {
+			return obs, err
+		}
+		obs.Procs++
+		if died {
+			out.Res = renderResult{Class: "crash"}
+		}
+		obs.Alone = append(obs.Alone, c17AloneObs{Name: p, Res: out.Res})
+	}
+	return obs, nil
+}
+
+func c17DebugCtl(e *pugjs.Engine, ctx context.Context, tpl string) (cls string) {
+	defer func() {
+		if r := recover(); r != nil {
+			cls = clsPanic // "tpl not found" and everything else the controller panics with
+		}
+	}()
+	req, err := http.NewRequest(http.MethodGet, "/_pugtpl/debug?"+url.Values{"tpl": {tpl}}.Encode(), nil)
+	if err != nil {
+		return clsErr
+	}
+	dc := &pugtemplate.DebugController{Engine: e}
+	if res := dc.Get(ctx, web.CreateRequest(req, nil)); res == nil {
+		return clsErr
+	}
+	return clsOK
+}
+
+// c17Child: one process, one job.
+func c17Child(job c17Job) (out c17JobOut, err error) {
+	c, dir := job.Case, job.Dir
 	fresh := func() interface{} { // a new copy of the data for every call
 		d, _ := c17Build(c.Data)
 		return d
@@ -254,15 +511,14 @@ func runC17(c c17Case) (obs c17Obs, err error) {
 	ctx := context.Background()
 	tname := unhx(c.Template)
 
-	// reference: a separate preloaded engine (same debug mode: debug changes how templates are compiled),
-	// every name alone, fresh data each time
-	ref := newEngine(dir, c.Debug, 0, nil)
-	if cls, msg := safeLoad(ref, ""); cls != clsOK {
-		return obs, fmt.Errorf("load failed: %s %s", cls, msg)
-	}
-	for _, u := range c.Universe {
-		r := safeRender(ref, ctx, tname+".partial/"+unhx(u), fresh())
-		obs.Alone = append(obs.Alone, c17AloneObs{Name: u, Res: r})
+	if job.Mode == "ref" {
+		// a preloaded engine (same debug mode: debug changes how templates are compiled), one name alone
+		ref := newEngine(dir, c.Debug, 0, c17Funcs())
+		if cls, msg := safeLoad(ref, ""); cls != clsOK {
+			return out, fmt.Errorf("load failed: %s %s", cls, msg)
+		}
+		out.Res = safeRender(ref, ctx, tname+".partial/"+unhx(job.Name), fresh())
+		return out, nil
 	}
 
 	// engine under test: its history, then the judged call.  One goroutine, so no call ever has to
@@ -271,27 +527,26 @@ func runC17(c c17Case) (obs c17Obs, err error) {
 	// observed as an error of that call instead of a harness that hangs.  After the first expired
 	// deadline of a harness run (which already is an alarm) the remaining calls of the run get
 	// c17DeadlineAfterStall: bounds the cost of a tree whose engine keeps waiting.
-	e := newEngine(dir, c.Debug, c.Limit, nil)
+	obs := &out.Obs
+	e := newEngine(dir, c.Debug, c.Limit, c17Funcs())
 	obs.Prep = []string{}
+	stalled := job.Short
 	call := func(f func(ctx context.Context)) {
 		d := c17Deadline
-		if c17RunStalled {
+		if stalled {
 			d = c17DeadlineAfterStall
 		}
 		cctx, cancel := context.WithTimeout(ctx, d)
 		defer cancel()
 		f(cctx)
 		if cctx.Err() != nil {
-			obs.Stalled, c17RunStalled = true, true
+			obs.Stalled, stalled = true, true
 		}
 	}
 	for _, op := range c.Prep {
 		fresh := fresh
 		if len(op.Data) > 0 {
 			raw := op.Data
-			if _, err := c17Build(raw); err != nil {
-				return obs, err
-			}
 			fresh = func() interface{} {
 				d, _ := c17Build(raw)
 				return d
@@ -299,8 +554,10 @@ func runC17(c c17Case) (obs c17Obs, err error) {
 		}
 		switch op.Op {
 		case "load":
-			cls, _ := safeLoad(e, "")
+			cls, _ := safeLoad(e, unhx(op.Filter))
 			obs.Prep = append(obs.Prep, cls)
+		case "debugctl":
+			obs.Prep = append(obs.Prep, c17DebugCtl(e, ctx, unhx(op.Filter)))
 		case "render":
 			call(func(ctx context.Context) {
 				obs.Prep = append(obs.Prep, safeRender(e, ctx, unhx(op.Name), fresh()).Class)
@@ -314,12 +571,28 @@ func runC17(c c17Case) (obs c17Obs, err error) {
 				cls, _, _ := c17Partials(e, ctx, t, fresh(), unhxAll(op.Names))
 				obs.Prep = append(obs.Prep, cls)
 			})
-		default:
-			return obs, fmt.Errorf("bad prep op %q", op.Op)
 		}
 	}
 	call(func(ctx context.Context) {
 		obs.Class, obs.NilMap, obs.Entries = c17Partials(e, ctx, tname, fresh(), unhxAll(c.Partials))
 	})
-	return obs, nil
+
+	// for the record only (after the judged call, on another engine): requested names that are no files
+	var ref *pugjs.Engine
+	seen := map[string]bool{}
+	for _, p := range c.Partials {
+		name := tname + ".partial/" + unhx(p)
+		if _, isFile := c.Files[hx(name)]; isFile || seen[p] {
+			continue
+		}
+		seen[p] = true
+		if ref == nil {
+			ref = newEngine(dir, c.Debug, 0, c17Funcs())
+			if cls, msg := safeLoad(ref, ""); cls != clsOK {
+				return out, fmt.Errorf("load failed: %s %s", cls, msg)
+			}
+		}
+		obs.Alone = append(obs.Alone, c17AloneObs{Name: p, Res: safeRender(ref, ctx, name, fresh())})
+	}
+	return out, nil
 }
